@@ -6,7 +6,7 @@
    numerals, so bytes are written with the constructors of Init.Byte and
    offsets as two such bytes (big endian).  The conversions below are part of
    the checkers. *)
-From PV Require Import Base.Prelude Base.Decimal Mime.Lines Mime.Parts.
+From PV Require Import Base.Prelude Base.Decimal Mime.Lines Mime.Parts Mime.Fields.
 From Coq Require Import Init.Byte.
 
 Definition B (l : list Byte.byte) : bytes := map Byte.to_N l.
@@ -75,23 +75,43 @@ Fixpoint bstruct_eqb (a b : bstruct) {struct a} : bool :=
   | _, _ => false
   end.
 
-Inductive qkind := QBody | QMime | QHeader | QText.
+Inductive qkind :=
+| QBody | QMime | QHeader | QText
+| QFields (inverse : bool) (subset : list bytes)   (* HEADER.FIELDS(.NOT) *)
+| QBinary                                          (* BINARY[..] *)
+| QBinarySize.                                     (* BINARY.SIZE[..]: expected = Sp 0 n *)
 
 (* one FETCH data item: kind, section part numbers, partial <o.n>, and the
    literal payload observed *)
 Definition query : Type := qkind * list nat * option (nat * nat) * expect.
 
-Definition run_query (d : bytes) (c : content) (k : qkind) (sec : list nat) : bytes :=
-  match k with
-  | QBody => fetch_body d c sec
-  | QMime => fetch_mime d c sec
-  | QHeader => fetch_header d c sec
-  | QText => fetch_text d c sec
+(* nodes whose Content-Transfer-Encoding is not an identity encoding, by the
+   start offset of their first header line (observed: MessageDecoder.of) *)
+Definition identity_of (nonid : list nat) (c : content) : bool :=
+  match c_hl c with
+  | [] => true
+  | l :: _ => negb (existsb (Nat.eqb (l_start l)) nonid)
   end.
 
-Definition chk_query (d : bytes) (c : content) (q : query) : bool :=
+Definition run_query (d : bytes) (nonid : list nat) (c : content) (k : qkind)
+           (sec : list nat) : option bytes :=
+  match k with
+  | QBody => Some (fetch_body d c sec)
+  | QMime => Some (fetch_mime d c sec)
+  | QHeader => Some (fetch_header d c sec)
+  | QText => Some (fetch_text d c sec)
+  | QFields inv subset => Some (fetch_fields d c sec subset inv)
+  | QBinary | QBinarySize => fetch_binary d (identity_of nonid) c sec
+  end.
+
+Definition chk_query (d : bytes) (nonid : list nat) (c : content) (q : query) : bool :=
   let '(k, sec, partial, expected) := q in
-  expect_eqb d (get_partial (run_query d c k sec) partial) expected.
+  match run_query d nonid c k sec, k, expected with
+  | Some got, QBinarySize, Sp _ n => Nat.eqb (length got) n
+  | Some _, QBinarySize, Ex _ => false
+  | Some got, _, _ => expect_eqb d (get_partial got partial) expected
+  | None, _, _ => false
+  end.
 
 (* pure level: (data, decisions, observed tree); the header and body lines
    of the root are _find_lines(data) split in two *)
@@ -108,28 +128,28 @@ Definition chk_parse (x : parse_case) : bool :=
 Definition chk_lines (x : bytes * list line) : bool :=
   lines_eqb (find_lines (fst x)) (snd x).
 
-(* fetch level: (data, decisions, RFC822.SIZE, body structure, data items);
-   [printed] = the structure was read from a BODYSTRUCTURE response (else from
-   the BodyStructure objects) *)
+(* fetch level: (data, decisions, non-identity nodes, RFC822.SIZE, body
+   structure, data items) *)
 Definition fetch_case : Type :=
-  bytes * list (nat * ctype) * nat * option bstruct * list query.
+  bytes * list (nat * ctype) * list nat * nat * option bstruct * list query.
 
-Definition chk_fetch_gen (printed : bool) (x : fetch_case) : bool :=
-  let '(d, t, size, bs, qs) := x in
+Definition chk_fetch (x : fetch_case) : bool :=
+  let '(d, t, nonid, size, bs, qs) := x in
   match parse d (ct_of_table t) with
   | Ok c =>
     Nat.eqb (size_of d c) size
     && match bs, body_structure d c with
        | None, _ => true           (* structure not observed for this case *)
-       | Some b, Some b' => bstruct_eqb (if printed then bs_printed b' else b') b
+       | Some b, Some b' => bstruct_eqb b' b
        | Some _, None => false
        end
-    && forallb (chk_query d c) qs
+    && forallb (chk_query d nonid c) qs
   | _ => false
   end.
 
-Definition chk_fetch : fetch_case -> bool := chk_fetch_gen false.
-Definition chk_fetch_imap : fetch_case -> bool := chk_fetch_gen true.
+(* literal8 prefix: (payload length, prefix of bytes(LiteralString(x, True))) *)
+Definition chk_literal8 (x : N * bytes) : bool :=
+  bytes_eqb (126%N :: literal_prefix (fst x)) (snd x).
 
 (* _find_parts on its own: (data, boundary, lines given, parts observed) *)
 Definition parts_case : Type := bytes * bytes * list line * list (list line).
